@@ -29,6 +29,8 @@ pub struct AcoCase {
     pub default_pher: f64,
     /// decay coefficient of the ant-system update: every rewarded tour deposits decay / length
     pub decay: f64,
+    /// four times the usual number of iterations (convergence effects)
+    pub long: bool,
     pub via_template: bool,
 }
 
@@ -213,6 +215,7 @@ fn observer(c: AcoCase, data: Arc<Mutex<AcoData>>) -> StepObserver<TspP> {
 }
 
 fn spec_for(c: &AcoCase, iters: u32) -> Spec<TspP> {
+    let iters = if c.long { iters * 4 } else { iters };
     let cc = c.clone();
     let c2 = c.clone();
     let ants = c.ants;
@@ -299,30 +302,34 @@ pub fn cases(thorough: bool) -> Vec<AcoCase> {
             if n == 6 && ants == 1 && !thorough {
                 continue;
             }
-            v.push(AcoCase { cities: n, instance: 0, ants, alpha, beta, evap, bounds: None, default_pher: dp, decay: 1.0, via_template: ants == 2 });
-            v.push(AcoCase { cities: n, instance: 0, ants, alpha, beta, evap, bounds: Some((2.0, 0.5)), default_pher: dp, decay: 1.0, via_template: ants != 2 });
+            v.push(AcoCase { cities: n, instance: 0, ants, alpha, beta, evap, bounds: None, default_pher: dp, decay: 1.0, long: false, via_template: ants == 2 });
+            v.push(AcoCase { cities: n, instance: 0, ants, alpha, beta, evap, bounds: Some((2.0, 0.5)), default_pher: dp, decay: 1.0, long: false, via_template: ants != 2 });
         }
     }
     for n in [3usize, 4] {
         for (ants, alpha, beta, evap, dp) in [(2usize, 1.0, 1.0, 1.0, 1.0), (1, 1.0, 1.0, 0.1, 0.0), (2, 2.0, 0.0, 1.0, 0.0)] {
-            v.push(AcoCase { cities: n, instance: 0, ants, alpha, beta, evap, bounds: None, default_pher: dp, decay: 1.0, via_template: ants == 2 });
+            v.push(AcoCase { cities: n, instance: 0, ants, alpha, beta, evap, bounds: None, default_pher: dp, decay: 1.0, long: false, via_template: ants == 2 });
         }
     }
     // parameters at the edge of their range: no evaporation with reinforcement, evaporation without
     // reinforcement (decay coefficient 0), a decay coefficient other than 1
     for n in [3usize, 4] {
         for (evap, decay) in [(0.0, 1.0), (0.5, 0.0), (0.0, 0.0), (0.1, 2.5)] {
-            v.push(AcoCase { cities: n, instance: 0, ants: 2, alpha: 1.0, beta: 1.0, evap, bounds: None, default_pher: 1.0, decay, via_template: n == 3 });
+            v.push(AcoCase { cities: n, instance: 0, ants: 2, alpha: 1.0, beta: 1.0, evap, bounds: None, default_pher: 1.0, decay, long: false, via_template: n == 3 });
         }
     }
+    // instances beyond any machine-word bookkeeping (33+ cities) and colonies large enough to converge
+    for (cities, ants, mm, long) in [(40usize, 2usize, false, false), (33, 2, true, false), (65, 1, false, false), (6, 16, false, true), (5, 12, true, true)] {
+        v.push(AcoCase { cities, instance: 0, ants, alpha: if long { 3.0 } else { 1.0 }, beta: 1.0, evap: 0.2, bounds: if mm { Some((2.0, 0.05)) } else { None }, default_pher: 1.0, decay: 1.0, long, via_template: true });
+    }
     if thorough {
-        v.push(AcoCase { cities: 10, instance: 0, ants: 2, alpha: 1.0, beta: 1.0, evap: 0.25, bounds: None, default_pher: 1.0, decay: 1.0, via_template: true });
-        v.push(AcoCase { cities: 6, instance: 1, ants: 2, alpha: 1.0, beta: 1.0, evap: 1.0, bounds: Some((2.0, 0.5)), default_pher: 0.0, decay: 1.0, via_template: true });
+        v.push(AcoCase { cities: 10, instance: 0, ants: 2, alpha: 1.0, beta: 1.0, evap: 0.25, bounds: None, default_pher: 1.0, decay: 1.0, long: false, via_template: true });
+        v.push(AcoCase { cities: 6, instance: 1, ants: 2, alpha: 1.0, beta: 1.0, evap: 1.0, bounds: Some((2.0, 0.5)), default_pher: 0.0, decay: 1.0, long: false, via_template: true });
     }
     // two tight clusters separated by an astronomically large distance
     for (ants, alpha, beta) in [(2usize, 1.0, 2.0), (1, 2.0, 5.0)] {
-        v.push(AcoCase { cities: 4, instance: 2, ants, alpha, beta, evap: 0.1, bounds: None, default_pher: 1.0, decay: 1.0, via_template: true });
-        v.push(AcoCase { cities: 4, instance: 2, ants, alpha, beta, evap: 0.1, bounds: Some((2.0, 0.5)), default_pher: 1.0, decay: 1.0, via_template: false });
+        v.push(AcoCase { cities: 4, instance: 2, ants, alpha, beta, evap: 0.1, bounds: None, default_pher: 1.0, decay: 1.0, long: false, via_template: true });
+        v.push(AcoCase { cities: 4, instance: 2, ants, alpha, beta, evap: 0.1, bounds: Some((2.0, 0.5)), default_pher: 1.0, decay: 1.0, long: false, via_template: false });
     }
     for &n in &cities {
         for inst in 0..2u8 {
@@ -330,13 +337,13 @@ pub fn cases(thorough: bool) -> Vec<AcoCase> {
                 if !thorough && (ants == 3 || (inst == 1 && alpha == 2.0 && beta == 2.0)) {
                     continue;
                 }
-                v.push(AcoCase { cities: n, instance: inst, ants, alpha, beta, evap, bounds: None, default_pher: 1.0, decay: 1.0, via_template: ants != 1 });
+                v.push(AcoCase { cities: n, instance: inst, ants, alpha, beta, evap, bounds: None, default_pher: 1.0, decay: 1.0, long: false, via_template: ants != 1 });
                 if ants >= 1 {
                     for (mx, mn, dp) in [(2.0, 0.5, 1.0), (1.0, 0.1, 1.0), (1.0, 0.01, 5.0), (3.0, 2.0, 0.5)] {
                         if dp != 1.0 && (inst == 1 || ants == 3) {
                             continue;
                         }
-                        v.push(AcoCase { cities: n, instance: inst, ants, alpha, beta, evap, bounds: Some((mx, mn)), default_pher: dp, decay: 1.0, via_template: ants != 2 });
+                        v.push(AcoCase { cities: n, instance: inst, ants, alpha, beta, evap, bounds: Some((mx, mn)), default_pher: dp, decay: 1.0, long: false, via_template: ants != 2 });
                     }
                 }
             }
